@@ -54,6 +54,14 @@ func spin(n uint64) {
 	}
 }
 
+// the epoch at which the k-th run (from 1) of a storm's job finds the clock
+func stormEpoch(op Op, k uint64) uint64 {
+	if op.Step == 0 || k == 0 {
+		return op.Epoch
+	}
+	return op.Epoch + (k-1)/op.Step
+}
+
 // the batches of a worker: an item that waits for the next run, and the "more" items after it
 func batches(items []SItem) [][]SItem {
 	var bs [][]SItem
@@ -87,7 +95,7 @@ func stormMicro(op Op, spe uint64) []string {
 	}
 	for g := 0; g < max(longest, int(op.Runs)); g++ {
 		if g < int(op.Runs) {
-			evs = append(evs, App("PClean", N(op.Epoch), N(spe)))
+			evs = append(evs, App("PClean", N(stormEpoch(op, uint64(g+1))), N(spe)))
 		}
 		for w := range per {
 			if g < len(per[w]) {
@@ -115,7 +123,7 @@ func stormCheck(h History, k int) error {
 		}
 		return (epoch - 64) * h.SPE
 	}
-	w := minSlot(op.Epoch)
+	w := minSlot(stormEpoch(op, op.Runs)) // the window of the storm's last run
 	ids := map[uint64]bool{}
 	for _, items := range op.Workers {
 		for _, it := range items {
@@ -158,7 +166,7 @@ func stormCheck(h History, k int) error {
 						}
 					case "storm":
 						// what an earlier storm wrote lies inside that storm's window
-						if cs < minSlot(prev.Epoch) {
+						if cs < minSlot(stormEpoch(prev, prev.Runs)) {
 							stored = false
 						}
 						for _, items := range prev.Workers {
@@ -278,6 +286,7 @@ func (e *env) runStorm(ctx context.Context, op Op, st *stormStats) (answers []an
 	}
 	watchdog := time.Now().Add(20 * time.Second)
 	for k := uint64(1); k <= op.Runs && !hung; k++ {
+		e.ct.SetSlot(stormEpoch(op, k)*e.ct.SPE + op.Off%e.ct.SPE)
 		gen.Store(k)
 		running.Store(true)
 		e.cleanJob(ctx)
@@ -334,12 +343,38 @@ func genStorm(r *Rand, class string) History {
 		epoch = uint64(r.Range(3, 64)) // the job deletes nothing
 	}
 	off := genCleanOff(r, spe)
-	cur := epoch*spe + off
-	w := uint64(0)
-	if epoch > 64 {
-		w = (epoch - 64) * spe
-	}
 	big := class == "big"
+	// the storms of the history: in half of them the clock advances by one epoch every `step` runs of
+	// the job, so that run after run finds something to delete
+	type plan struct {
+		nw, runs, step int
+		start          uint64
+	}
+	plans := make([]plan, 1)
+	if r.Chance(1, 4) {
+		plans = make([]plan, 2)
+	}
+	last := epoch
+	for i := range plans {
+		p := plan{nw: r.Range(2, 3), runs: r.Range(8, 20), start: last}
+		if big {
+			p.nw, p.runs = r.Range(3, 4), r.Range(25, 45)
+		}
+		if r.Chance(1, 2) {
+			p.step = r.Range(1, max(1, p.runs/3))
+			last += uint64((p.runs - 1) / p.step)
+		}
+		plans[i] = p
+	}
+	// the window of the LAST run: everything the storms write lies inside it
+	cur := last*spe + off
+	w, wFirst := uint64(0), uint64(0)
+	if last > 64 {
+		w = (last - 64) * spe
+	}
+	if epoch > 64 {
+		wFirst = (epoch - 64) * spe
+	}
 	nOld, nIn, maxSpin := r.Range(0, 30), r.Range(20, 160), 3000
 	if big {
 		nOld, nIn, maxSpin = r.Range(0, 150), r.Range(300, 600), 30000
@@ -347,6 +382,7 @@ func genStorm(r *Rand, class string) History {
 	if w == 0 {
 		nOld = 0
 	}
+	oldFrom := wFirst - min(wFirst, 3*spe) // old entries: some below the first run's window, the others fall out of it as the clock advances
 	h := History{SPE: spe, Chain: map[uint64]uint64{}, Tags: []string{"storm", "storm:" + class}}
 	next := uint64(1)
 	inWindowSlot := func() uint64 {
@@ -363,7 +399,7 @@ func genStorm(r *Rand, class string) History {
 	for i := 0; i < nOld+nIn; i++ {
 		var s uint64
 		if r.Intn(nOld+nIn) < nOld {
-			s = w - 1 - uint64(r.Intn(int(min(w, 3*spe))))
+			s = oldFrom + uint64(r.Intn(int(w-oldFrom)))
 			old = append(old, next)
 		} else {
 			s = inWindowSlot()
@@ -393,16 +429,9 @@ func genStorm(r *Rand, class string) History {
 		}
 		return uint64(r.Intn(maxSpin + 1))
 	}
-	nstorms := 1
-	if r.Chance(1, 4) {
-		nstorms = 2
-	}
-	for n := 0; n < nstorms; n++ {
-		op := Op{Kind: "storm", Epoch: epoch, Off: off}
-		nw, runs := r.Range(2, 3), r.Range(8, 20)
-		if big {
-			nw, runs = r.Range(3, 4), r.Range(25, 45)
-		}
+	for n, p := range plans {
+		op := Op{Kind: "storm", Epoch: p.start, Off: off, Step: uint64(p.step)}
+		nw, runs := p.nw, p.runs
 		op.Runs = uint64(runs)
 		var fresh []uint64
 		id := uint64(0)
@@ -474,7 +503,7 @@ func genStorm(r *Rand, class string) History {
 			h.Ops = append(h.Ops, failingLookup(r, old[r.Intn(len(old))]))
 		}
 		in = append(in, fresh...)
-		if n+1 < nstorms {
+		if n+1 < len(plans) {
 			for i := r.Range(0, 5); i > 0; i-- {
 				h.Chain[next] = inWindowSlot()
 				h.Ops = append(h.Ops, insertOp(r, next, h.Chain[next], missShare))
